@@ -244,6 +244,18 @@ impl Element {
     }
 }
 
+// Verification hooks: raw access to the internal representative.
+#[cfg(decaf377_verif)]
+impl Element {
+    pub fn verif_coords(&self) -> (Fq, Fq, Fq, Fq) {
+        (self.x, self.y, self.z, self.t)
+    }
+
+    pub fn verif_from_coords(x: Fq, y: Fq, z: Fq, t: Fq) -> Element {
+        Element { x, y, z, t }
+    }
+}
+
 impl Encoding {
     pub fn vartime_decompress(&self) -> Result<Element, EncodingError> {
         // Top three bits of last byte must be zero
